@@ -13,6 +13,10 @@ PURE = {"abs", "round", "min", "max", "sum", "len", "int", "float", "bool"} | {
                           "pi e tau inf fabs fmod hypot isfinite isinf isnan copysign").split()}
 OPERATORS = {"Add": "add", "Sub": "sub", "Mult": "mul", "Div": "truediv", "FloorDiv": "floordiv", "Mod": "mod", "Pow": "pow", "USub": "neg", "UAdd": "pos"}
 COMPARISONS = {"Eq": "eq", "NotEq": "ne", "Lt": "lt", "LtE": "le", "Gt": "gt", "GtE": "ge"}
+# text preparation of the expression string and pure builtins never evaluate anything: they are inside every pathway's effect contract
+PURE_STR_METHODS = {"strip", "lstrip", "rstrip", "lower", "upper", "replace", "startswith", "endswith", "split", "splitlines", "join", "find", "count",
+                    "isdigit", "isspace", "isidentifier", "removeprefix", "removesuffix", "casefold", "partition", "rpartition", "format", "encode"}
+PURE_BUILTINS = {"len", "str", "bool", "int", "float", "isinstance", "list", "tuple", "set", "dict", "sorted", "min", "max", "any", "all", "repr", "type", "range", "enumerate", "zip"}
 DANGEROUS = {"eval", "exec", "compile", "__import__", "open", "input", "globals", "locals", "vars", "setattr", "delattr", "breakpoint"}
 
 
@@ -145,7 +149,9 @@ def main(which="C01"):
             for c in ast.walk(fn):
                 if isinstance(c, ast.Call):
                     q = ast.unparse(c.func)
-                    if q not in allowed:
+                    pure_text = isinstance(c.func, ast.Attribute) and c.func.attr in PURE_STR_METHODS
+                    pure_builtin = isinstance(c.func, ast.Name) and c.func.id in PURE_BUILTINS
+                    if q not in allowed and not pure_text and not pure_builtin:
                         bad.append(f"line {c.lineno}: {m} calls {q}, outside its effect contract")
                     if q == "ast.parse":
                         mode = [k for k in c.keywords if k.arg == "mode"]
